@@ -454,6 +454,16 @@ func main() {
 	facts = append(facts, fact{"has_ban_add", "op", has("db.go", "DB", "BanNamespace", "db.bannedNamespaces.add(ns)"), "db.go:DB.BanNamespace [adds to the in-memory set]"})
 	facts = append(facts, fact{"ord_ban_steps", "op", ascending("db.go", "DB", "BanNamespace",
 		"db.opt.NamespaceOffset < 0", "y.KeyWithTs(append(bannedNsKey, y.U64ToBytes(ns)...), 1)", "db.sendToWriteCh(entry)", "req.Wait()", "db.bannedNamespaces.add(ns)"), "db.go:DB.BanNamespace [mode check, marker key at version 1, write, wait, in-memory set]"})
+	// readers and the flusher (C01/C12: a read that overlaps a memtable flush): the flusher publishes
+	// the L0 table BEFORE it removes the memtable from db.imm; every reader picks the memtables BEFORE
+	// it picks the tables of the levels. (Props/C01Flush.lean: with these two orders no entry is
+	// missed, with either one reversed an entry can be.)
+	facts = append(facts, fact{"ord_newiterator_mem_levels", "op", ascending("iterator.go", "Txn", "NewIterator",
+		"txn.db.getMemTables()", "txn.db.lc.appendIterators("), "iterator.go:Txn.NewIterator [memtables picked before the level tables]"})
+	facts = append(facts, fact{"ord_dbget_mem_levels", "op", ascending("db.go", "DB", "get",
+		"db.getMemTables()", "tables[i].sl.Get(key)", "db.lc.get(key"), "db.go:DB.get [memtables picked and searched before the levels]"})
+	facts = append(facts, fact{"ord_flusher_l0_imm", "op", ascending("db.go", "DB", "flushMemtable",
+		"db.handleMemTableFlush(mt, nil)", "db.imm = db.imm[1:]"), "db.go:DB.flushMemtable [L0 table published before the memtable leaves db.imm]"})
 	// Txn.Commit / commitPrecheck
 	facts = append(facts, fact{"ord_commit_steps", "op", ascending("txn.go", "Txn", "Commit",
 		"len(txn.pendingWrites) == 0", "txn.commitPrecheck()", "txn.commitAndSend()"), "txn.go:Txn.Commit [order of steps]"})
